@@ -605,14 +605,18 @@ impl FormatSpec {
     {
         self.validate_format(FormatType::String)?;
         match self.format_type {
-            Some(FormatType::String) | None => self
-                .format_sign_and_align(s, "", FormatAlign::Left)
-                .map(|mut value| {
-                    if let Some(precision) = self.precision {
-                        value.truncate(precision);
-                    }
-                    value
-                }),
+            Some(FormatType::String) | None => {
+                // the precision truncates the value (by characters) before it is padded
+                let text: &str = s.deref();
+                let truncated = match self.precision {
+                    Some(precision) => match text.char_indices().nth(precision) {
+                        Some((index, _)) => &text[..index],
+                        None => text,
+                    },
+                    None => text,
+                };
+                self.format_sign_and_align(&CharStr::new(truncated), "", FormatAlign::Left)
+            }
             _ => {
                 let ch = char::from(self.format_type.as_ref().unwrap());
                 Err(FormatSpecError::UnknownFormatCode(ch, "str"))
@@ -682,6 +686,29 @@ struct AsciiStr<'a> {
 impl<'a> AsciiStr<'a> {
     fn new(inner: &'a str) -> Self {
         Self { inner }
+    }
+}
+
+struct CharStr<'a> {
+    inner: &'a str,
+}
+
+impl<'a> CharStr<'a> {
+    fn new(inner: &'a str) -> Self {
+        Self { inner }
+    }
+}
+
+impl CharLen for CharStr<'_> {
+    fn char_len(&self) -> usize {
+        self.inner.chars().count()
+    }
+}
+
+impl Deref for CharStr<'_> {
+    type Target = str;
+    fn deref(&self) -> &Self::Target {
+        self.inner
     }
 }
 
